@@ -1222,7 +1222,8 @@ def run_case(ctx, d, vseed, lines, recs, collect=True, space=None, hist=None):
 
     # ---- <1, 1> through the model as well (the statement of C02.discr_one_inner_eq_volume,
     # discr_explicit_one_inner and discr_one_inner_with_tolerance): exact comparison
-    if collect and d[0] in ('U', 'G') and hasin and flat_size(d) <= 2000:
+    if collect and d[0] in ('U', 'G') and hasin and flat_size(d) <= 2000 and \
+            (d[0] == 'G' or vseed % 3 == 0 or hist is not None):
         o11m = outcome(lambda: space.one().inner(space.one()))
         if o11m[0] == 'ok':
             ones = [1.0] * flat_size(d)
